@@ -53,7 +53,7 @@ def cases(tier, seed):
     # order of the assets INSIDE a structured / linked asset
     for o in ((1, 0, 2), (2, 1, 0)) if tier != 'thorough' else [p_ for p_ in itertools.permutations(range(3)) if list(p_) != [0, 1, 2]]:
         out.append(('structured_inner_order_%s' % ''.join(map(str, o)), dict(kind='inner', which='structured', order=list(o), T=5)))
-    for o in ((3, 2, 0, 1), (2, 3, 1, 0)) if tier != 'thorough' else [p_ for p_ in itertools.permutations(range(4)) if list(p_) != [0, 1, 2, 3]][::3]:
+    for o in ((3, 2, 0, 1), (2, 3, 1, 0), (0, 1, 3, 2)) if tier != 'thorough' else [p_ for p_ in itertools.permutations(range(4)) if list(p_) != [0, 1, 2, 3]][::3]:
         out.append(('linked_inner_order_%s' % ''.join(map(str, o)), dict(kind='inner', which='linked', order=list(o), T=3)))
     for nm in ('numeric', 'numeric_like', 'blanks_only_difference'):
         out.append(('rename_%s_with_coarse_asset' % nm, dict(kind='rename', naming=nm, order=[0, 1, 2, 3], two_node=False, T=4, coarse=True)))
@@ -155,7 +155,7 @@ def build_inner(D, which, order, T):
         nP, nQ = shapes.nodes('P', 'Q')
         ga = shapes.mk_plant(D, 'ga', [nP], T, price='p', fuel=False, mr=0, sym_cap=True)
         gb = shapes.mk_plant(D, 'gb', [nP], T, price='q', fuel=False, mr=2, sym_cap=True)
-        aux = shapes.mk_market(D, 'aux', nQ, T, 'r', ec=True)
+        aux = shapes.mk_market(D, 'aux', nQ, T, 'r', ec=True, win=(1, T), tg=tg)      # a wrapped asset living in a window of its own
         line = shapes.mk_transport(D, 'line', nQ, nP, eff=0.5)
         inner = [ga, gb, aux, line]
         w = eao.portfolio.LinkedAsset(eao.portfolio.Portfolio([inner[i] for i in order]), asset1_variable=('ga', 'disp', 'P'), asset2_variable=('gb', 'bool_on', None),
